@@ -180,7 +180,7 @@ class IdentityDatabase(Database):
                  metadata_pointer BLOB,
                  signature BLOB,
 
-                 PRIMARY KEY (public_key, metadata_pointer)
+                 PRIMARY KEY (public_key, authority_key, metadata_pointer)
                  );
 
                  CREATE TABLE IF NOT EXISTS option(key TEXT PRIMARY KEY, value BLOB);
